@@ -4,8 +4,11 @@ import (
 	"fmt"
 	"strings"
 
+	"github.com/glycerine/zygomys/v9/zygo"
+
 	"verif/internal/engine"
 	. "verif/internal/ref"
+	"verif/internal/zy"
 )
 
 // C16 — lazy parameters delay, memoise and stay lexical; strict ones do not.
@@ -13,7 +16,7 @@ import (
 var c16names = []string{"a", "b", "c"}
 
 // usage of a lazy parameter inside the body
-var c16usage = []string{"none", "force", "force2", "subst", "closure", "shadow", "escape"}
+var c16usage = []string{"none", "force", "force2", "subst", "closure", "shadow", "escape", "force-subst", "subst-force"}
 
 func c16use(kind, p string) string {
 	switch kind {
@@ -29,6 +32,10 @@ func c16use(kind, p string) string {
 		return "(fn [] (force " + p + "))"
 	case "shadow":
 		return "(let [v 777] (force " + p + "))"
+	case "force-subst": // the source stays recoverable after the value has been computed
+		return "(list (force " + p + ") (str (substitute " + p + ")))"
+	case "subst-force":
+		return "(list (str (substitute " + p + ")) (force " + p + "))"
 	case "escape": // the thunk itself is returned and forced by the top level, twice
 		return p
 	}
@@ -219,6 +226,52 @@ func c16program(lazy []bool, use []string, variadic bool, route string, failAt i
 
 func c16prelude() []*T { return Parse(`(def v 1000)`) }
 
+// c16scenarios: a lazy argument that outlives its call is forced in several separate evaluations; a force that
+// fails is not remembered, and a later force still sees the caller's bindings.
+type c16scn struct {
+	name  string
+	steps [][2]string // text, expected (ERR = any error)
+}
+
+var c16scenarios = []c16scn{
+	{"failed-force-then-success", [][2]string{
+		{`(def ready false) (def loc 1000) (defn mk [#x] #x) (defn caller [loc] (mk (cond ready loc (fail 0)))) (def saved (caller 7)) 0`, "0"},
+		{`(force saved)`, "ERR"}, {`(set ready true)`, "true"}, {`(force saved)`, "7"}, {`(force saved)`, "7"}, {`(str (substitute saved))`, `"(cond ready loc (fail 0))"`}}},
+	{"failed-force-inside-function-then-success", [][2]string{
+		{`(def ready false) (def loc 1000) (defn mk [#x] #x) (defn tryf [th] (force th)) (def saved (let [loc 7] (mk (cond ready (+ loc 1) (fail 0))))) 0`, "0"},
+		{`(tryf saved)`, "ERR"}, {`(tryf saved)`, "ERR"}, {`(set ready true)`, "true"}, {`(tryf saved)`, "8"}, {`(set ready false)`, "false"}, {`(force saved)`, "8"}}},
+	{"substitute-after-force", [][2]string{
+		{`(defn lab [#x] (list (force #x) (str (substitute #x)) (force #x))) (lab (+ 2 3))`, `(5 "(+ 2 3)" 5)`},
+		{`(defn mk [#x] #x) (def th (mk (+ 2 3))) (force th)`, "5"}, {`(str (substitute th))`, `"(+ 2 3)"`}, {`(force th)`, "5"}}},
+	{"counted-once-across-evaluations", [][2]string{
+		{`(def n 0) (defn mk [#x] #x) (def th (mk (begin (set n (+ n 1)) n))) n`, "0"}, {`(force th)`, "1"}, {`(force th)`, "1"}, {`n`, "1"}}},
+}
+
+func c16runScenarios(c *engine.Ctx, only string) {
+	for _, sc := range c16scenarios {
+		w := "SCN|" + sc.name
+		if !(only == "" && c.Mine() || only == w) {
+			continue
+		}
+		c.Begin(w)
+		tr := zy.NewTraced(false)
+		zygo.VerifSetStepBudget(300000)
+		for i, st := range sc.steps {
+			r := tr.Run(st[0])
+			if !r.OK() {
+				tr.Env.Clear()
+			}
+			got := r.Short()
+			if got != st[1] {
+				c.Violation("scenario", "C16/scenario/"+sc.name, w, fmt.Sprintf("step %d %q gives %s, expected %s (steps so far: %q)", i+1, st[0], r, st[1], sc.steps[:i]))
+				break
+			}
+		}
+		tr.Env.Close()
+		c.Outcome(w)
+	}
+}
+
 func c16each(f func(lazy []bool, use []string, variadic bool)) {
 	for k := 1; k <= 3; k++ {
 		for mask := 0; mask < 1<<uint(k); mask++ {
@@ -260,6 +313,7 @@ func init() {
 			"arguments are traced host calls reading the caller's variable; value, error and trace compared with the reference evaluator (thunk + memo + caller's scope)",
 		Assumptions: []string{"R1 models lazy parameters as memoised thunks over the caller's scope; apply/map wrap evaluated values; the typed func declaration route is not generated"},
 		Run: func(c *engine.Ctx) {
+			c16runScenarios(c, "")
 			c16each(func(lazy []bool, use []string, variadic bool) {
 				for _, route := range c16routes {
 					for failAt := -2; failAt < len(lazy); failAt++ {
@@ -312,6 +366,13 @@ func init() {
 			})
 		},
 		Replay: func(c *engine.Ctx, w string) {
+			if strings.HasPrefix(w, "SCN|") {
+				c16runScenarios(c, w)
+				for i := range c.Viol {
+					c.Viol[i].Key = "*"
+				}
+				return
+			}
 			replayProgram(c, "C16", c16prelude(), w, nil, progOpts{keyExtra: "*"})
 			if len(c.Viol) == 0 {
 				// a *-redefined witness needs the earlier definition with the opposite lazy positions
